@@ -17,7 +17,7 @@ PROFILES = {
                       kinds=dict(M=8, N=2, W=0.3, P=0), max_obj=2, max_exp=5, p_core=0.75, p_inverted=0.1, p_full_mask=0.7,
                       p_seq_exp=0.3, nops=(12, 36)),
     # C04: lifetime operations dominate
-    'lifetime': profile(w=dict(obj=5, exp=16, call=16, rmexp=12, rmobj=7, mvobj=4, mon=1, tr=0.1, rmtr=0.1, rep=0.1, seq=1.5),
+    'lifetime': profile(w=dict(defer=1.0, obj=5, exp=16, call=16, rmexp=12, rmobj=7, mvobj=4, mon=1, tr=0.1, rmtr=0.1, rep=0.1, seq=1.5),
                         kinds=dict(M=7, N=2, W=1.5, P=0.2), p_seq_exp=0.15, nops=(8, 26), p_se_destroy=0.05),
     # C05/C06: sequences everywhere
     'sequence': profile(w=dict(mvseq=1.5, obj=3, seq=5, exp=18, call=36, rmexp=4, rmobj=1.5, mvobj=0.7, mon=3.5, rmseq=1.5, tr=0.1, rmtr=0.1, rep=0.1),
@@ -26,22 +26,22 @@ PROFILES = {
     'forbid': profile(w=dict(obj=2, exp=18, call=38, rmexp=7, rmobj=1, mvobj=0.7, mon=0.1, tr=0.1, rmtr=0.1, rep=0.1, seq=1),
                       kinds=dict(M=8, N=1, W=0.3, P=0), max_obj=2, p_full_mask=0.5, p_seq_exp=0.2, nops=(10, 30), forbid_bias=0.45),
     # C08: clause-rich shapes, throwing side effects, nested calls
-    'actions': profile(w=dict(obj=3, exp=14, call=40, rmexp=3, rmobj=1, mvobj=0.5, mon=0.1, tr=0.3, rmtr=0.3, rep=0.1, seq=1.5, setp=1.5),
+    'actions': profile(w=dict(defer=1.2, obj=3, exp=14, call=40, rmexp=3, rmobj=1, mvobj=0.5, mon=0.1, tr=0.3, rmtr=0.3, rep=0.1, seq=1.5, setp=1.5),
                        kinds=dict(M=8, N=1, W=0.3, P=0), p_core=0.25, p_se_throw=0.15, p_se_nested=0.15, p_full_mask=0.7,
                        p_with_accept=0.7, p_seq_exp=0.25, nops=(10, 30), clause_bias=True, p_se_destroy=0.04),
     # C13: watched objects
     'deathwatch': profile(w=dict(obj=8, seq=2, exp=3, call=5, rmexp=10, rmobj=9, mvobj=4, cpobj=3, asobj=4, mon=14, rmseq=0.5, tr=0.1, rmtr=0.1, rep=0.1),
                           kinds=dict(M=1, N=0.2, W=5, P=6), max_obj=4, p_seq_exp=0.5, nops=(8, 26)),
     # C14: hostile orders; stepping into don't-care territory is allowed (only memory safety is checked there)
-    'hostile': profile(w=dict(mvseq=2, obj=5, seq=4, exp=14, call=18, rmexp=7, rmobj=7, mvobj=6, cpobj=1, asobj=1.5, mon=5, rmseq=4, tr=1.5, rmtr=1.5, rep=0.3),
+    'hostile': profile(w=dict(defer=1.0, mvseq=2, obj=5, seq=4, exp=14, call=18, rmexp=7, rmobj=7, mvobj=6, cpobj=1, asobj=1.5, mon=5, rmseq=4, tr=1.5, rmtr=1.5, rep=0.3),
                        kinds=dict(M=6, N=1.5, W=3, P=2), p_seq_exp=0.6, allow_cut=True, hostile_teardown=True, nops=(10, 34), p_se_destroy=0.05),
     # C15: every kind of report
-    'reports': profile(w=dict(mvseq=0.7, exp=14, call=30, rmexp=6, rmobj=4, mvobj=1.5, mon=4, rmseq=1, seq=3),
+    'reports': profile(w=dict(defer=0.6, mvseq=0.7, exp=14, call=30, rmexp=6, rmobj=4, mvobj=1.5, mon=4, rmseq=1, seq=3),
                        fn_bias=dict(h=3, gs=2), p_with_accept=0.4, p_full_mask=0.2, p_se_destroy=0.03),
     # C16: reporter swaps
-    'okrep': profile(w=dict(exp=14, call=36, rmexp=4, rmobj=1.5, rep=4, mon=0.5, tr=0.2, rmtr=0.2), p_full_mask=0.5, forbid_bias=0.15),
+    'okrep': profile(w=dict(defer=0.6, exp=14, call=36, rmexp=4, rmobj=1.5, rep=4, mon=0.5, tr=0.2, rmtr=0.2), p_full_mask=0.5, forbid_bias=0.15),
     # C17: tracers
-    'tracing': profile(w=dict(exp=12, call=36, rmexp=3, rmobj=1, tr=6, rmtr=5, rep=0.2, mon=0.3), p_full_mask=0.6, p_se_throw=0.1,
+    'tracing': profile(w=dict(defer=0.6, exp=12, call=36, rmexp=3, rmobj=1, tr=6, rmtr=5, rep=0.2, mon=0.3), p_full_mask=0.6, p_se_throw=0.1,
                        p_se_nested=0.12, p_core=0.3, throw_bias=True),
 }
 
